@@ -88,6 +88,10 @@ def norm_vjp(ans, x, ord=None, axis=None):
         elif not (ord is None or 1 < ord < float("inf")):
             raise NotImplementedError("Gradient of norm not implemented for ord={}".format(ord))
 
+    if isinstance(axis, tuple):
+        # negative axes count from the end of x
+        axis = tuple(ax % anp.ndim(x) for ax in axis)
+
     if axis is None:
         expand = lambda a: a
     elif isinstance(axis, tuple):
@@ -143,6 +147,10 @@ def norm_jvp(g, ans, x, ord=None, axis=None):
                 raise NotImplementedError("Gradient of matrix norm not implemented for ord={}".format(ord))
         elif not (ord is None or 1 < ord < float("inf")):
             raise NotImplementedError("Gradient of norm not implemented for ord={}".format(ord))
+
+    if isinstance(axis, tuple):
+        # negative axes count from the end of x
+        axis = tuple(ax % anp.ndim(x) for ax in axis)
 
     if axis is None:
         contract = lambda a: anp.sum(a)
